@@ -81,7 +81,7 @@ func (c *TTLCache) Add(key string, value any) (cachedValue any, done func(bool),
 	rc.inc()        // The client references this object (will be decreased on "done")
 	rc.t = time.AfterFunc(c.ttl, func() {
 		c.mu.Lock()
-		verifhook.Event("ttl.Timer", c, key)
+		verifhook.Event("ttl.Timer", c, key, rc.v)
 		defer c.mu.Unlock()
 		c.evictLocked(key)
 	})
